@@ -24,6 +24,10 @@ Step(e) ==
             IF e.res # "ok" THEN Flag("publisher_" \o e.op \o "_failed")
             ELSE IF e.i # nsent + 1 THEN Flag("harness_numbering")
             ELSE nsent' = nsent + 1 /\ UNCHANGED <<skip, run, nviol, out, finished, poisoned, hadPoison>>
+      [] e.ev = "pub_oversize" ->
+            \* an item beyond the frame limit: refused (nothing accepted), or accepted because it compresses
+            IF e.res = "ok" THEN nsent' = nsent + 1 /\ UNCHANGED <<skip, run, nviol, out, finished, poisoned, hadPoison>>
+            ELSE Stutter
       [] e.ev = "pub_finish_ret" ->
             IF e.res # "ok" THEN Flag("finish_failed")
             ELSE finished' = TRUE /\ UNCHANGED <<skip, run, nviol, nsent, out, poisoned, hadPoison>>
